@@ -1196,6 +1196,7 @@ def c12(tier, rng):
                     wm = ["wmode 0 1", "wmode 3 2 5 1", "wmode 2 7", "wmode 0 3"][(n // 3) % 4]
                     out.append(case("c%dw" % n, wm + " ; " + s.script(), [kind, "partial-writes"], L=L, M=Mx, kind=kind))
                 n += 1
+    TIER_THOROUGH[0] = (tier == "thorough")
     out += c12_extra()
     return out + r6("C12") + r7("C12") + r8("C12") + r9("C12")
 
@@ -2744,6 +2745,9 @@ def r8(pid):
 
 
 # ---- round 9 ------------------------------------------------------------------------------------------------------------------
+TIER_THOROUGH = [False]
+
+
 def r9(pid):
     out = []
     if pid in ("C10", "C15"):
@@ -2776,6 +2780,18 @@ def r9(pid):
             st.deliver(M.publish(b"a", b"m2", 1, 9, ps=[(11, 1)])), st.ev("pollstream %d" % a), st.ev("pollstream %d" % a)
             st.ev("dropctx"), st.ev("pollstream %d" % a)
             out.append(case("stream-outlives-disconnect-%s" % nm, st.script(), ["stream-outlives", nm]))
+    if pid == "C12":
+        # the largest packet MQTT can express: 1 + 4 + 268 435 455 bytes. A Maximum Packet Size at or above it refuses nothing,
+        # one byte below it refuses exactly that packet. Implementation only (the model's byte lists are not made for 256 MiB);
+        # the harness prints such a write as length:digest:head.
+        Lmax = 268435460
+        for nm, Mx in (("M=L", Lmax), ("M=L-1", Lmax - 1)) + ((("M=L+1", Lmax + 1), ("M=max", 4294967295), ("M=absent", None)) if TIER_THOROUGH[0] else ()):
+            st = S(connack_props=[(39, Mx)] if Mx else [])
+            i = st.pub(q=0, payload=None, extra="pl=r%dx00" % (Lmax - 9))
+            st.poll(i), st.poll(i)
+            c_ = case("protocol-maximum-%s" % nm, st.script(), ["protocol-maximum", nm], L=Lmax, M=Mx, kind="pub0")
+            c_["model"] = False
+            out.append(c_)
     if pid == "C10":
         # RETAIN is a flag of the message, not of the exchange: retained QoS>0 publishes take and free slots like any other
         for R in (1, 2):
